@@ -177,11 +177,16 @@ class FQN:
                         return_value = find_obj(m, name)
                         if return_value is not None:
                             return return_value
+                # Follow containment only: neither the `parent` link nor
+                # non-containment references lead to a qualified name.
+                meta_attrs = getattr(type(parent), "_tx_attrs", {})
                 for attr in [
                     a
                     for a in parent.__dict__
                     if not a.startswith("__")
                     and not a.startswith("_tx_")
+                    and a != "parent"
+                    and not (a in meta_attrs and not meta_attrs[a].cont)
                     and not callable(getattr(parent, a))
                 ]:
                     obj = getattr(parent, attr)
